@@ -17,6 +17,7 @@ pub mod c16;
 pub mod c17;
 pub mod c18;
 pub mod c19;
+pub mod c20;
 
 pub fn dispatch(pos: &[String], tier: Tier, seed: u64, replay: Option<String>) -> i32 {
     let id = pos.first().map(|s| s.as_str()).unwrap_or("");
@@ -40,6 +41,8 @@ pub fn dispatch(pos: &[String], tier: Tier, seed: u64, replay: Option<String>) -
         "C17" => c17::run(tier, seed, replay),
         "C18" => c18::run(tier, seed, replay),
         "C19" => c19::run(tier, seed, replay),
+        "C20" => c20::run(tier, seed, replay),
+        "c20-child" => c20::child_main(pos),
         _ => {
             eprintln!("unknown property {id}");
             2
